@@ -316,6 +316,19 @@ def reuse_items():
     return items
 
 
+def reuse_between():
+    """the shared reader is given documents it rejects (a 40-column row, a mangled timecode) between judged reads"""
+    from pycaption import SCCReader
+
+    from mc.checks import c16
+
+    for doc in (c16.REJECTED_DOC, c16.MANGLED_DOC):
+        try:
+            shared.obj(SCCReader).read(doc)
+        except Exception:  # noqa
+            pass
+
+
 def reuse_eval(item):
     v, g, out = compare(item[0], item[1])
     return [(classify(kind, det, item[0], "reuse-run"), det) for kind, det in (v or [])], out
@@ -386,7 +399,7 @@ def run_shard(d):
     acc.states_set = set()
     k = d["k"]
     if k == "reuse":
-        shared.run(acc, reuse_items(), reuse_eval, sample=lambda it: {"reuse_run_step": it[0], "doubled": it[1]})
+        shared.run(acc, reuse_items(), reuse_eval, between=reuse_between, sample=lambda it: {"reuse_run_step": it[0], "doubled": it[1]})
     elif k == "single-row":
         pv = pac_variants(d["row"])[d["pv"]]
         for evs in row_programs(d["row"], d["maxloads"], d["doubled"]):
@@ -493,7 +506,7 @@ def _t(x):
 
 def replay(case):
     if case.get("reuse"):
-        return shared.replay(reuse_items(), reuse_eval, case["index"])
+        return shared.replay(reuse_items(), reuse_eval, case["index"], between=reuse_between)
     caps = [[_t(e) for e in c] for c in case["captions"]]
     v, g, _ = compare(caps, case["doubled"])
     if v is None:
